@@ -250,6 +250,7 @@ type probeObs struct {
 	Calls  []callObs `json:"calls"`
 	Closed bool     `json:"closed"`
 	Err    string   `json:"err,omitempty"`
+	Burst  bool     `json:"burst,omitempty"` // sent together with the scenario's other datagrams, not on its own
 }
 type callObs struct {
 	Stub string `json:"stub"`
@@ -347,8 +348,78 @@ func (prop) Child(b core.Batch, o *core.Obs) {
 			}
 			o.EmitX("probe", ob)
 		}
+		if p.Socket {
+			// the scenario's datagrams once more, all in flight at the same time (three rounds): each from a
+			// socket of its own, so that the service call can be attributed by the client address
+			var udp []int
+			for i, pr := range sc.Probes {
+				if pr.Net == "udp" {
+					udp = append(udp, i)
+				}
+			}
+			for round := 0; round < 3 && len(udp) > 1; round++ {
+				lab.Stubs.Reset()
+				local := map[int]string{}
+				var conns []*net.UDPConn
+				for _, i := range udp {
+					pr := sc.Probes[i]
+					c, err := net.DialUDP("udp", &net.UDPAddr{IP: net.ParseIP("127.0.0.9")}, &net.UDPAddr{IP: net.ParseIP(pr.IP), Port: pr.Port})
+					if err != nil {
+						continue
+					}
+					conns = append(conns, c)
+					local[i] = c.LocalAddr().String()
+				}
+				ci := 0
+				for _, i := range udp {
+					if local[i] == "" {
+						continue
+					}
+					conns[ci].Write(sc.Probes[i].Payload)
+					ci++
+				}
+				waitStubsQuiet(3*time.Second, 80*time.Millisecond)
+				calls := lab.Stubs.Snapshot()
+				for _, c := range conns {
+					c.Close()
+				}
+				for _, i := range udp {
+					if local[i] == "" {
+						continue
+					}
+					ob := probeObs{I: i, Burst: true}
+					for _, c := range calls {
+						if c.Remote == local[i] {
+							ob.Calls = append(ob.Calls, callObs{Stub: c.Stub, Hex: hex.EncodeToString(c.Data), Done: c.Done})
+						}
+					}
+					o.EmitX("probe", ob)
+				}
+			}
+		}
 		srv.Stop()
 		o.End(k)
+	}
+}
+
+// waitStubsQuiet waits until every started stub has finished and no new one has started for the quiet period.
+func waitStubsQuiet(max, quiet time.Duration) {
+	deadline := time.Now().Add(max)
+	last, since := -1, time.Now()
+	for time.Now().Before(deadline) {
+		cs := lab.Stubs.Snapshot()
+		all := true
+		for _, c := range cs {
+			if !c.Done {
+				all = false
+			}
+		}
+		if len(cs) != last || !all {
+			last, since = len(cs), time.Now()
+		} else if time.Since(since) >= quiet {
+			return
+		}
+		time.Sleep(500 * time.Microsecond)
 	}
 }
 
@@ -466,6 +537,9 @@ func (prop) Judge(b core.Batch, recs []core.Rec, exits []core.Exit) []core.Resul
 			}
 			if p.Conc {
 				mode = "concurrent"
+			}
+			if ob.Burst {
+				mode = "socket-burst"
 			}
 			if strings.HasPrefix(ob.Err, "dial:") {
 				// nothing listening there: admissible only if no entry is effective for it
